@@ -1,9 +1,13 @@
 #!/bin/bash
-# usage: tools/burnin.sh "<seeds>" <tier> Cnn [Cnn ...]    (development tool: runs checks at several seeds, prints summaries)
+# usage: tools/burnin.sh "<seeds>" <tier> Cnn [Cnn ...]    (development tool: runs checks at several seeds, prints summaries
+# and, for the quick tier, the classes that stayed under their floor - tools/class_floor.py)
 SEEDS="$1"; TIER="$2"; shift 2
 cd "$(dirname "$0")/.."
+export VERIF_EVIDENCE_DIR="${VERIF_EVIDENCE_DIR:-/tmp/dev/ev_burn}"
+mkdir -p "$VERIF_EVIDENCE_DIR"
 for C in "$@"; do for S in $SEEDS; do
   OUT="$(VERIF_SEED=$S ./check "$C" --tier "$TIER" 2>&1)"; RC=$?
   echo "== $C seed=$S exit=$RC $(echo "$OUT" | grep '^property=' | tail -1)"
   echo "$OUT" | grep -E '^(VIOLATION|  bucket=|HARNESS|NOTE)' | cut -c1-400 | head -12
+  [ "$TIER" = quick ] && tools/class_floor.py "$VERIF_EVIDENCE_DIR" "$C" | grep -v ': ok'
 done; done
